@@ -3,6 +3,8 @@ mod c01;
 mod c03c;
 mod c04;
 mod c06;
+mod c07d;
+mod c08r;
 mod c12;
 mod c14;
 mod c15a;
@@ -18,6 +20,8 @@ fn main() {
         "C03c" => c03c::run(&args),
         "C04" => c04::run(&args),
         "C06" => c06::run(&args),
+        "C07d" => c07d::run(&args),
+        "C08r" => c08r::run(&args),
         "C14" => c14::run(&args),
         "C15a" => c15a::run(&args),
         "C16" => c16::run(&args),
